@@ -57,11 +57,17 @@ class Fragment:
                 return self.name, self.end, othr.name, othr.start
             elif othr.strand == -1:
                 #      fwd >>>                          <<< rev
-                return self.name, self.end, othr.end, othr.name
+                # Order the two ends so that the junction is encoded the
+                # same way when the Scaffold is reversed
+                frst, scnd = sorted(((self.name, self.end), (othr.name, othr.end)))
+                return frst[0], frst[1], scnd[1], scnd[0]
         elif self.strand == -1:
             if othr.strand == 1:
                 #                    <<< rev  fwd >>>
-                return self.start, self.name, othr.name, othr.start
+                frst, scnd = sorted(
+                    ((self.name, self.start), (othr.name, othr.start)), reverse=True
+                )
+                return frst[1], frst[0], scnd[0], scnd[1]
             elif othr.strand == -1:
                 # For the rev-rev case, junction should match fwd-fwd
                 #      rev >>>              rev >>>
